@@ -60,6 +60,8 @@ pub struct World {
     pub pj: Projector,
     pub known: BTreeMap<u64, Known>,
     pub next_id: u64,
+    /// operations of a scripted pattern still to be issued (generator only)
+    pub pending: std::collections::VecDeque<J>,
 }
 
 impl World {
@@ -69,7 +71,7 @@ impl World {
             let mut r = qs.read().await.expect("read");
             Projector::new(&mut r)
         };
-        World { qs, now: 0, pj, known: BTreeMap::new(), next_id: 1 }
+        World { qs, now: 0, pj, known: BTreeMap::new(), next_id: 1, pending: Default::default() }
     }
     pub async fn state(&self, full: bool) -> J {
         let mut r = self.qs.read().await.expect("read");
@@ -379,7 +381,98 @@ impl Gen {
         }
     }
 
+    /// Scripted multi-step patterns (sequence-dependent corners that single random steps rarely line up):
+    /// the steps are queued and issued one per transaction like any other operation.
+    fn pattern(&self, w: &mut World, r: &mut Rng) -> bool {
+        let g = self.live_of(w, r, &[Kind::Grp]);
+        let x = self.any_live(w, r);
+        let u = self.live_of(w, r, &[Kind::Usr, Kind::Svc]);
+        let which: &[u64] = match self.focus.as_str() {
+            "C16" => &[1, 2, 1, 2, 6],
+            "C17" => &[3, 3, 7, 1],
+            "C18" => &[5, 5, 4],
+            "C22" => &[4, 4, 7],
+            "C26" => &[6, 2, 1, 6],
+            _ => &[1, 2, 3, 4, 5, 6, 7],
+        };
+        let mut q: Vec<J> = vec![];
+        match *r.pick(which) {
+            1 => {
+                // holder and target deleted one after the other, holder revived first
+                if let (Some(g), Some(x)) = (g, x) {
+                    if g != x {
+                        q = vec![json!({"a":"add_member","g":eid(g),"x":eid(x)}), json!({"a":"delete","ids":[eid(g)]}),
+                                 json!({"a":"delete","ids":[eid(x)]}), json!({"a":"revive","id":eid(g)}), json!({"a":"revive","id":eid(x)})];
+                    }
+                }
+            }
+            2 => {
+                // dependent behind its target: cascade delete, lone revive of the dependent, revive of the target
+                if let Some(u) = u {
+                    let c = w.next_id;
+                    w.next_id += 1;
+                    q = vec![json!({"a":"create_cert","id":eid(c),"r":eid(u)}), json!({"a":"delete","ids":[eid(u)]}),
+                             json!({"a":"revive","id":eid(c)}), json!({"a":"revive","id":eid(u)})];
+                }
+            }
+            3 => {
+                // a member cycle with an external parent that is then removed
+                let a = self.live_of(w, r, &[Kind::Grp]);
+                let b = self.live_of(w, r, &[Kind::Grp]);
+                let c = self.live_of(w, r, &[Kind::Grp]);
+                if let (Some(a), Some(b), Some(c)) = (a, b, c) {
+                    q = vec![json!({"a":"add_member","g":eid(a),"x":eid(b)}), json!({"a":"add_member","g":eid(b),"x":eid(a)}),
+                             json!({"a":"add_member","g":eid(c),"x":eid(a)}), json!({"a":"remove_member","g":eid(c),"x":eid(a)})];
+                }
+            }
+            4 => {
+                // domain renamed while an entry sits in the recycle bin
+                if let Some(x) = x {
+                    q = vec![json!({"a":"delete","ids":[eid(x)]}), json!({"a":"domain_rename","dom":*r.pick(&DOMS)}), json!({"a":"revive","id":eid(x)})];
+                }
+            }
+            5 => {
+                // candidate leaves, the filter changes underneath, candidate comes back and is edited
+                let d = self.live_of(w, r, &[Kind::Dyn]);
+                if let (Some(d), Some(u)) = (d, u) {
+                    q = vec![json!({"a":"set_desc","id":eid(u),"d":*r.pick(&DESCS)}), json!({"a":"delete","ids":[eid(u)]}),
+                             json!({"a":"set_filter","d":eid(d),"f":rand_filter(r, 1)}), json!({"a":"revive","id":eid(u)}),
+                             json!({"a":"set_desc","id":eid(u),"d":*r.pick(&DESCS)})];
+                }
+            }
+            6 => {
+                // a full trip through the bin: just before / after the retention period, then the changelog window
+                if let Some(x) = x {
+                    q = vec![json!({"a":"delete","ids":[eid(x)]}), json!({"a":"purge_recycled","dt":RMAX - 1}), json!({"a":"purge_recycled","dt":2}),
+                             json!({"a":"revive","id":eid(x)}), json!({"a":"purge_tombstones","dt":CMAX - 2}), json!({"a":"purge_tombstones","dt":3})];
+                }
+            }
+            _ => {
+                // a group with members goes through the bin
+                if let (Some(g), Some(x)) = (g, x) {
+                    q = vec![json!({"a":"add_member","g":eid(g),"x":eid(x)}), json!({"a":"delete","ids":[eid(g)]}), json!({"a":"revive","id":eid(g)})];
+                }
+            }
+        }
+        if q.is_empty() {
+            return false;
+        }
+        w.pending.extend(q);
+        true
+    }
+
     pub fn next(&self, w: &mut World, r: &mut Rng) -> J {
+        if w.pending.is_empty() && w.known.len() >= 5 && r.chance(1, 9) {
+            self.pattern(w, r);
+        }
+        if let Some(mut op) = w.pending.pop_front() {
+            let dt = op.get("dt").and_then(|d| d.as_u64()).unwrap_or_else(|| r.range(1, 5));
+            if let Some(m) = op.as_object_mut() {
+                m.remove("dt");
+            }
+            op["t"] = json!(w.now + dt);
+            return op;
+        }
         let nknown = w.known.len() as u64;
         let mut op = if nknown < 4 || r.chance(1, if nknown < 10 { 4 } else { 12 }) {
             self.create(w, r)
